@@ -129,6 +129,20 @@ def satI64 (k : Int) : Int :=
     `self.duration + (seconds as i64) * Unit::Second` -/
 def Ep.addWholeSeconds (e : Ep) (k : Int) : Ep := ⟨Dur.add e.dur (Dur.unitMulI64 Gen.NANOSECONDS_PER_SECOND (satI64 k)), e.ts⟩
 
+/-- `Epoch::floor` / `ceil` / `round` (src/epoch/ops.rs): `Self::from_duration(self.duration.floor(step), self.time_scale)`
+    — the `Duration` operation on the elapsed time in the epoch's OWN scale, the scale kept; all nine scales -/
+def Ep.floor (e : Ep) (s : Dur) : Ep := ⟨Dur.floor e.dur s, e.ts⟩
+def Ep.ceil (e : Ep) (s : Dur) : Res Ep :=
+  match Dur.ceil e.dur s with
+  | .ok r => .ok ⟨r, e.ts⟩
+  | .err => .err
+  | .panic => .panic
+def Ep.round (e : Ep) (s : Dur) : Res Ep :=
+  match Dur.round e.dur s with
+  | .ok r => .ok ⟨r, e.ts⟩
+  | .err => .err
+  | .panic => .panic
+
 /-- `Epoch - Epoch` -/
 def Ep.diff (a b : Ep) : Option Dur :=
   match b.to a.ts with
